@@ -18,6 +18,8 @@ PROP = "C06"
 THEOREMS = [
     "IrVerif.Kernel.C06_atomic",
     "IrVerif.Kernel.C06_rename_values_atomic",
+    "IrVerif.Kernel.C06_rauw_many_atomic",
+    "IrVerif.Kernel.C06_view_atomic",
 ]
 ASSUMPTIONS = [
     "same alphabet, typing assumption and exclusions as C01",
@@ -53,6 +55,7 @@ def run(ctx: Ctx) -> None:
     ctx.exhaustive_scopes.append(K.run_after_reject(ctx, PROP, depth=ctx.pick(3, 4)))
     ctx.notes.append("directed: " + K.run_sort_scenarios(ctx, PROP))
     ctx.notes.append("directed: " + K.run_position_scenarios(ctx, PROP))
+    ctx.notes.append("directed: " + K.run_view_scenarios(ctx, PROP))
     K.run_random(ctx, PROP, ctx.pick(2000, 40000), ctx.pick(40, 60))
     K.check_alphabet(ctx, PROP)
 
